@@ -90,7 +90,7 @@ structure Variant where
   reapFinished : Bool := true
   /-- `false`: `synced_size.fetch_max(size)` is executed whatever `sync_all` returned -/
   publishOnlyOnSuccess : Bool := true
-  /-- `true` = /repo since the `fix:` commit 1531c14 (repair of E23; `false` = /repo before it): after the flag has been
+  /-- `true` = /repo since the `fix:` commit bc65670 (repair of E23; `false` = /repo before it): after the flag has been
       reset the task evaluates "active blob over the limit" once more and runs the sync again when it holds (in the code
       this is the loop inside `Inner::fsyncdata`; the translator checks its presence, `Tie/C12.lean`) -/
   recheck : Bool := false
@@ -99,9 +99,9 @@ structure Variant where
   awaitRunning : Bool := false
 deriving DecidableEq, Repr, Inhabited
 
-/-- /repo BEFORE the repair of E23 (commit 1531c14); the code as it is now is `recheckOnly` -/
+/-- /repo BEFORE the repair of E23 (commit bc65670); the code as it is now is `recheckOnly` -/
 def current : Variant := {}
-/-- the code as it is since 1531c14: the re-check is in, the worker still drops a request that meets an unfinished task -/
+/-- the code as it is since bc65670: the re-check is in, the worker still drops a request that meets an unfinished task -/
 def recheckOnly : Variant := { recheck := true }
 def guardLate : Variant := { guardBeforeCheck := false }
 def resetSkipped : Variant := { resetOnError := false }
